@@ -29,7 +29,7 @@ DEFAULTS = {
     'templates': 'dense',      # 'dense' | 'sparse'
     'id_dtype': 'int32', 'time_dtype': 'uint64',
     'alf_samples': True,
-    'attrs': 'none',           # 'none' | '1d' | '2d' | 'wronglen'
+    'attrs': 'none',           # 'none' | '1d' | '2d' | 'wronglen' | 'col' (n,1) | 'row' (1,n)
     'content': 'finite',       # 'nan_amp' | 'inf_wm' | 'nan_similar' | 'nan_template' | 'nan_features'
     'monotone': True,
     'geometry': 'line',        # 'line' | 'grid' | 'twoshank' | 'col14' | 'linex0'
@@ -232,8 +232,14 @@ def make_dataset(d, spec=None):
 
     # --- templates
     T = default_templates(nt, nsw, nc, fill, s['profile']).astype(s['template_dtype'])
+    Tclean = T
     if s['content'] == 'nan_template':
         T[nt - 1] = np.nan
+    elif s['content'] == 'nan_template_channel':
+        # one channel of one template is NaN at every sample, the template is finite elsewhere
+        Tclean = T.copy()
+        a0 = T[0].max(axis=0) - T[0].min(axis=0)
+        T[0][:, int(np.argsort(-a0, kind='stable')[min(1, nc - 1)])] = np.nan
     if sparse_t and s['sparse_cols'] is not None:
         cols = np.array(s['sparse_cols'], dtype=np.int32)
         nloc = cols.shape[1]
@@ -259,7 +265,7 @@ def make_dataset(d, spec=None):
         data = np.zeros((nt, nsw, nloc), dtype=np.float32)
         Tfull = np.zeros_like(T)
         for t in range(nt):
-            amp = np.nan_to_num(T[t].max(axis=0) - T[t].min(axis=0))
+            amp = np.nan_to_num(Tclean[t].max(axis=0) - Tclean[t].min(axis=0))
             order = np.argsort(-amp, kind='stable')[:nloc]
             cols[t] = order
             data[t] = T[t][:, order]
@@ -309,6 +315,12 @@ def make_dataset(d, spec=None):
         if s['features'] == 'sparse_rows':
             rows = np.array([i for i in range(ns) if i % 2 == 0] or [0], dtype=np.int64)
             n_f = len(rows)
+        elif s['features'] == 'sparse_rows_all':
+            # a row table that lists every spike, in another order than the spike order
+            rows = np.array(list(range(ns))[::-1], dtype=np.int64)
+        elif s['features'] == 'sparse_rows_unsorted':
+            rows = np.array([i for i in range(ns) if i % 2 == 0][::-1] or [0], dtype=np.int64)
+            n_f = len(rows)
         npcs = 2
         pcf = np.zeros((n_f, npcs, nloc), dtype=s['feat_dtype'])
         for i in range(n_f):
@@ -323,7 +335,7 @@ def make_dataset(d, spec=None):
             pcf[0, 0, 0] = np.nan
         truth['pc_features'] = pcf
         save('pc_features.npy', pcf)
-        if s['features'] in ('sparse', 'sparse_rows'):
+        if s['features'].startswith('sparse'):
             ind = np.zeros((nt, nloc), dtype=s['ind_dtype'])
             for t in range(nt):
                 ind[t] = np.roll(np.arange(nc), -t)[:nloc]
@@ -342,13 +354,18 @@ def make_dataset(d, spec=None):
         if s['tfeatures'] == 'sparse_rows':
             rows = np.array([i for i in range(ns) if i % 2 == 1] or [0], dtype=np.int64)
             n_f = len(rows)
+        elif s['tfeatures'] == 'sparse_rows_all':
+            rows = np.array(list(range(1, ns)) + [0], dtype=np.int64)
+        elif s['tfeatures'] == 'sparse_rows_unsorted':
+            rows = np.array([i for i in range(ns) if i % 2 == 1][::-1] or [0], dtype=np.int64)
+            n_f = len(rows)
         tf = np.zeros((n_f, ntl), dtype=s['feat_dtype'])
         for i in range(n_f):
             for c in range(ntl):
                 tf[i, c] = ((i * 3 + c * 5 + fill) % 11 + 1) * (0.25 if s['feat_dtype'] == 'float32' else 0.1)
         truth['template_features'] = tf
         save('template_features.npy', tf)
-        if s['tfeatures'] in ('sparse', 'sparse_rows'):
+        if s['tfeatures'].startswith('sparse'):
             ind = np.zeros((nt, ntl), dtype=s['ind_dtype'])
             for t in range(nt):
                 ind[t] = np.roll(np.arange(nt), -t)[:ntl]
@@ -360,13 +377,18 @@ def make_dataset(d, spec=None):
 
     # --- spike attributes
     truth['spike_attributes'] = {}
-    if s['attrs'] in ('1d', '2d', 'wronglen'):
+    if s['attrs'] in ('1d', '2d', 'wronglen', 'col', 'row'):
         if s['attrs'] == '1d':
             a = np.arange(ns) * 1.5
             truth['spike_attributes']['depthx'] = a
         elif s['attrs'] == '2d':
             a = np.arange(ns * 2).reshape(ns, 2) * 0.5
             truth['spike_attributes']['depthx'] = a
+        elif s['attrs'] in ('col', 'row'):
+            # stored with a singleton dimension: exposed squeezed, like every other array
+            a = np.arange(ns) * 2.5
+            truth['spike_attributes']['depthx'] = a
+            a = a.reshape((ns, 1) if s['attrs'] == 'col' else (1, ns))
         else:
             a = np.arange(ns + 3) * 1.0
         save('spike_depthx.npy', a)
